@@ -3710,8 +3710,13 @@ class ControlConnection(object):
         Replace existing connection (if there is one) and close it.
         """
         with self._lock:
-            old = self._connection
-            self._connection = conn
+            if self._is_shutdown:
+                # shut down while this connection was being set up (after the check in
+                # _try_connect): installing it now would leave it open for ever
+                old = conn
+            else:
+                old = self._connection
+                self._connection = conn
 
         if old:
             log.debug("[control connection] Closing old connection %r, replacing with %r", old, conn)
